@@ -79,11 +79,16 @@ def BOUNDS(tier):
             'corruption_bases': {'v1': len(corr1_bases()), 'v2': len(corr2_bases())},
             'base_headers': {'v1': len(v1_bases()), 'v2': len(v2_bases())},
             'payloads': [b2s(p) for p in PAYLOADS],
-            'payloads_for_derived_inputs': 2 if q else len(PAYLOADS),
+            'payloads_for_corrupted_headers': 'one of 2, alternating' if q else 'all %d' % len(PAYLOADS),
+            'v2_corruption_bases_used': len(QUICK_CORR2) if q else len(corr2_bases()),
+            'truncations': 'every prefix of every base header' + (' (UNIX: of the corruption bases)' if q else ''),
+            'all_256_values': 'v2 bytes 12,13 of %d bases' % (4 if q else 6) + (' and 14,15 of one' if q else ' and 14,15'),
+            'near_boundary_v1_lines': len(near1_lines()),
             'short_reads': {'small reads (<=48 bytes)': 'all segmentations',
-                            'large reads': 'd=%d, sizes {1..4,half,n-4..n-1} above 16 bytes, + one byte at a time'
-                                           % (2 if q else 3),
-                            'large reads of base headers': 'as above' if q else 'all segmentations'},
+                            'large reads, derived inputs': 'd=%d, sizes {1..4,half,n-4..n-1} above 16 bytes, + one '
+                                                           'byte at a time' % (1 if q else 3),
+                            'large reads, base headers': 'd=2, same sizes, + one byte at a time' if q
+                                                         else 'all segmentations'},
             'declared_lengths': '0..320 + boundaries' if q else '0..65535',
             'garbage': 'all strings len<=4 over {P,R,SP,CR,LF,NUL} x 5 tails x 3 mix-ins',
             'double_corruptions': 'none' if q else 'first 8 bytes (v1/auto) and first 12 bytes (v2/auto), 8x8 values'}
@@ -128,14 +133,15 @@ _OPTS = {}
 
 
 def options(m, wide):
-    """sizes a read of at most m (>= 2) bytes may return; index 0 = everything."""
+    """sizes a read of at most m (>= 2) bytes may return; index 0 = everything, then descending
+    (the depth-first explorer then reaches every position by a short prefix)."""
     k = (m, wide >= m)
     o = _OPTS.get(k)
     if o is None:
         if wide >= m:
-            o = [m] + list(range(1, m))
+            o = list(range(m, 0, -1))
         else:
-            o = [m] + sorted(set(x for x in (1, 2, 3, 4, m // 2, m - 4, m - 3, m - 2, m - 1) if 1 <= x < m))
+            o = [m] + sorted(set(x for x in (1, 2, 3, 4, m // 2, m - 4, m - 3, m - 2, m - 1) if 1 <= x < m), reverse=True)
         _OPTS[k] = o
     return o
 
@@ -153,14 +159,77 @@ def _canon(v):
     return None
 
 
+_LIVE = {}
+_USES = ('LOAD_FAST', 'LOAD_FAST_CHECK', 'LOAD_FAST_AND_CLEAR', 'DELETE_FAST')
+_DEFS = ('STORE_FAST',)
+_STOPS = ('RETURN_VALUE', 'RETURN_CONST', 'RAISE_VARARGS', 'RERAISE')
+_GOTOS = ('JUMP_FORWARD', 'JUMP_BACKWARD', 'JUMP_BACKWARD_NO_INTERRUPT', 'JUMP_ABSOLUTE', 'JUMP')
+
+
+def live_after(code, lasti):
+    """Names of the local variables that may still be read after the call executing at bytecode
+    offset ``lasti`` returns or raises (classic backward liveness over the control-flow graph,
+    exception-table edges included).  Locals that are dead (written before any further read, as
+    the scratch variables of the previous loop iteration are) cannot influence the continuation
+    and are left out of the merge key.  Unknown situations fall back to "everything is live"."""
+    k = (code, lasti)
+    if k in _LIVE:
+        return _LIVE[k]
+    import dis
+    try:
+        ins = list(dis.get_instructions(code))
+        index = {i.offset: n for n, i in enumerate(ins)}
+        handlers = [(e.start, e.end, e.target) for e in dis._parse_exception_table(code)]
+        succ = []
+        for n, i in enumerate(ins):
+            s = []
+            if i.opcode in dis.hasjrel or i.opcode in dis.hasjabs:
+                s.append(index[i.argval])
+                if i.opname not in _GOTOS and n + 1 < len(ins):
+                    s.append(n + 1)
+            elif i.opname not in _STOPS and n + 1 < len(ins):
+                s.append(n + 1)
+            for a, b, t in handlers:
+                if a <= i.offset < b:
+                    s.append(index[t])
+            succ.append(s)
+        live_in = [frozenset()] * len(ins)
+        changed = True
+        while changed:
+            changed = False
+            for n in range(len(ins) - 1, -1, -1):
+                i = ins[n]
+                out = frozenset().union(*[live_in[m] for m in succ[n]]) if succ[n] else frozenset()
+                if i.opname in _DEFS:
+                    new = out - {i.argval}
+                elif i.opname in _USES:
+                    new = out | {i.argval}
+                else:
+                    new = out
+                if new != live_in[n]:
+                    live_in[n] = new
+                    changed = True
+        at = max(n for n, i in enumerate(ins) if i.offset <= lasti)
+        out = frozenset().union(*[live_in[m] for m in succ[at]]) if succ[at] else frozenset()
+        # cell / free variables are never analysed: always live
+        res = frozenset(out) | frozenset(code.co_cellvars) | frozenset(code.co_freevars)
+    except Exception:
+        res = None
+    _LIVE[k] = res
+    return res
+
+
 def frame_key(pos, nbytes, vlen):
-    """Canonical continuation: every simple local of every frame from the caller of recv_into
-    up to (not including) execute()."""
+    """Canonical continuation: every simple *live* local of every frame from the caller of
+    recv_into up to (not including) execute(), with the bytecode offsets."""
     parts = [pos, nbytes, vlen]
     f = sys._getframe(3)
     while f is not None and f.f_code is not _EXECUTE_CODE:
+        live = live_after(f.f_code, f.f_lasti)
         items = []
         for k, v in f.f_locals.items():
+            if live is not None and k not in live:
+                continue
             c = _canon(v)
             if c is not None or v is None:
                 items.append((k, c))
@@ -170,7 +239,8 @@ def frame_key(pos, nbytes, vlen):
 
 
 class ScriptSock(object):
-    def __init__(self, stream, ch, wide, onebyte=False, keyed=True):
+    def __init__(self, stream, ch, wide, onebyte=False, keyed=True, kind='sched'):
+        self.kind = kind
         self.stream = stream
         self.pos = 0
         self.ch = ch
@@ -202,7 +272,7 @@ class ScriptSock(object):
         key = None
         if self.keyed and len(ch.points) >= len(ch.prefix):
             key = frame_key(self.pos, nbytes, vlen)
-        k = opts[ch.choose(len(opts), 'r%d@%d' % (m, self.pos), 'sched', key=key)]
+        k = opts[ch.choose(len(opts), 'recv', self.kind, key)]
         if k != m:
             self.short += 1
         return k
@@ -252,9 +322,9 @@ class ScriptSock(object):
             self.payload = b''.join(chunks)
 
 
-def execute(mixin, stream, ch, wide, onebyte=False, keyed=True):
+def execute(mixin, stream, ch, wide, onebyte=False, keyed=True, kind='sched'):
     """One execution of the real handle().  Returns (observation, sock)."""
-    sock = ScriptSock(stream, ch, wide, onebyte, keyed)
+    sock = ScriptSock(stream, ch, wide, onebyte, keyed, kind)
     try:
         get_edge(mixin).handle(sock, ('192.0.2.1', 4321))
     except (Prune, Horizon, HarnessError, KeyboardInterrupt, MemoryError):
@@ -338,7 +408,7 @@ def check_input(res, mixin, stream, mode, interesting=True, sample_tag=None):
     res.count('inputs')
     res.count('inputs_' + v.status)
     if interesting:
-        res.interesting((mixin, stream))
+        res.interesting((mixin, stream) if interesting is True else interesting)
     cores = {}
     keyed = d > 0
 
@@ -362,12 +432,16 @@ def check_input(res, mixin, stream, mode, interesting=True, sample_tag=None):
                           make_replay(mixin, stream, sock.ch.choices, wide, sock.onebyte, sock.reads))
         cores.setdefault(core_outcome(obs), (list(sock.ch.choices), sock.onebyte, list(sock.reads)))
 
+    # all segmentations: the read size is enumerated exhaustively as 'data' (not counted against a
+    # deviation budget, so a state is expanded once); bounded: a short read is a 'sched' deviation
+    kind = 'data' if d == ALL else 'sched'
+
     def run(ch):
-        obs, sock = execute(mixin, stream, ch, wide, False, keyed)
+        obs, sock = execute(mixin, stream, ch, wide, False, keyed, kind)
         ch.sock = sock
         return obs
 
-    st = explore(run, d=d, merge=keyed, on_result=lambda ch, obs: tally(obs, ch.sock))
+    st = explore(run, d=0 if d == ALL else d, dd=None, merge=keyed, on_result=lambda ch, obs: tally(obs, ch.sock))
     res.add_stats(st)
     if onebyte:
         ch = Chooser()
@@ -453,6 +527,40 @@ def corr1_bases():
             ref.build_v1('UNKNOWN', tail=b' foo bar')]
 
 
+@_cached
+def near1_lines():
+    """v1 lines with values just outside (and, for contrast, just inside) the field boundaries and
+    the small syntactic deviations around the grammar."""
+    out = []
+    ports = ['65535', '65536', '65537', '70000', '99999', '100000', '655350', '-1', '-0', '+1', '00', '01', '065535',
+             '1_0', '', '0x10', '1e3', '1.0', '٣', ' 1']
+    for p in ports:
+        out.append(('PROXY TCP4 1.2.3.4 5.6.7.8 %s 25\r\n' % p).encode('utf-8'))
+        out.append(('PROXY TCP6 ::1 ::2 1025 %s\r\n' % p).encode('utf-8'))
+    ip4 = ['255.255.255.255', '256.0.0.0', '0.0.0.256', '1.2.3', '1.2.3.4.5', '1..2.3', '1.2.3.4.', '.1.2.3.4', '01.2.3.4',
+           '1.2.3.04', '0x1.2.3.4', '1.2.3.4a', '', '::1', '1.2.3.-4', '999.1.1.1', '1.2.3.1000']
+    for a in ip4:
+        out.append(('PROXY TCP4 %s 5.6.7.8 1 2\r\n' % a).encode('ascii'))
+        out.append(('PROXY TCP4 1.2.3.4 %s 1 2\r\n' % a).encode('ascii'))
+    ip6 = [':::', '1:2:3:4:5:6:7', '1:2:3:4:5:6:7:8:9', '12345::', 'g::', '::ffff:1.2.3.4', '1:2:3:4:5:6:7::',
+           '::1:2:3:4:5:6:7', '1:2:3:4::5:6:7:8', '1::2::3', ':1', '1:', '1.2.3.4', '', '::ffff', 'FFFF::', '0::0',
+           '1:2:3:4:5:6:7:8::', '::1:2:3:4:5:6:7:8', '00001::']
+    for a in ip6:
+        out.append(('PROXY TCP6 %s ::1 1 2\r\n' % a).encode('ascii'))
+        out.append(('PROXY TCP6 ::1 %s 1 2\r\n' % a).encode('ascii'))
+    good = b'TCP4 1.2.3.4 5.6.7.8 1 2'
+    out += [b'PROXY TCP5 1.2.3.4 5.6.7.8 1 2\r\n', b'PROXY tcp4 1.2.3.4 5.6.7.8 1 2\r\n', b'PROXY TCP 1.2.3.4 5.6.7.8 1 2\r\n',
+            b'PROXY TCP44 1.2.3.4 5.6.7.8 1 2\r\n', b'PROXY UNKNOW\r\n', b'PROXY UNKNOWNS\r\n', b'PROXY unknown\r\n',
+            b'PROXY TCP4 1.2.3.4 5.6.7.8 1\r\n', b'PROXY TCP4 1.2.3.4 5.6.7.8\r\n', b'PROXY TCP4\r\n', b'PROXY \r\n',
+            b'PROXY\r\n', b'PROXY TCP4 1.2.3.4 5.6.7.8 1 2 3\r\n', b'PROXY TCP4 1.2.3.4 5.6.7.8 1 2 \r\n',
+            b'PROXY  ' + good + b'\r\n', b'PROXY\t' + good + b'\r\n', b'proxy ' + good + b'\r\n', b' PROXY ' + good + b'\r\n',
+            b'PROXY ' + good + b'\n', b'PROXY ' + good + b'\r', b'PROXY ' + good + b'\n\r', b'PROXY ' + good + b'\r\r\n',
+            b'PROXY ' + good + b' \r\n', b'PROXY TCP4  1.2.3.4 5.6.7.8 1 2\r\n', b'PROXY TCP4 1.2.3.4\t5.6.7.8 1 2\r\n',
+            b'PROXY TCP6 1.2.3.4 5.6.7.8 1 2\r\n', b'PROXY TCP4 ::1 ::2 1 2\r\n', b'PROXY TCP4 1.2.3.4 ::2 1 2\r\n',
+            b'PROXZ ' + good + b'\r\n', b'\r\nPROXY ' + good + b'\r\n', b'PROXY ' + good + b'\x00\r\n']
+    return out
+
+
 INET_VARIANTS = [('1.2.3.4', 258, '5.6.7.8', 25), ('0.0.0.0', 0, '0.0.0.0', 0),
                  ('255.255.255.255', 65535, '255.255.255.255', 65535), ('10.0.0.1', 1, '127.0.0.1', 65534)]
 INET6_VARIANTS = [('2001:db8::1', 258, '2001:db8::2', 25), ('::', 0, '::', 0),
@@ -510,6 +618,10 @@ def v2_bases():
     return uniq
 
 
+# quick: INET x4, INET6 {exact, LOCAL}, UNIX {exact, +3 TLV}, UNSPEC x5
+QUICK_CORR2 = (0, 1, 2, 3, 4, 7, 8, 9, 12, 13, 14, 15, 16)
+
+
 @_cached
 def corr2_bases():
     out = []
@@ -561,6 +673,10 @@ def gen(family, tier):
             for pay in PAYLOADS:
                 for mx in ('v2', 'auto'):
                     yield mx, h + pay, 'base', not (tag == 'proxy-inet-1-exact' and pay == PAY_EHLO)
+    elif family == 'near1':
+        for h in near1_lines():
+            for mx in ('v1', 'auto'):
+                yield mx, h + PAY_EHLO, '', True
     elif family == 'cross':
         for tag, h in v1_bases()[::7]:
             yield 'v2', h + PAY_EHLO, '', True
@@ -570,20 +686,30 @@ def gen(family, tier):
             yield 'v1', h + b'Z' * 130, '', True
             yield 'v1', h, '', True
     elif family in ('corrupt1', 'corrupt2'):
-        bases, mixins = (corr1_bases(), ('v1', 'auto')) if family == 'corrupt1' else (corr2_bases(), ('v2', 'auto'))
+        if family == 'corrupt1':
+            bases, mixins = corr1_bases(), ('v1', 'auto')
+        else:
+            bases, mixins = corr2_bases(), ('v2', 'auto')
+            if tier == 'quick':
+                bases = [h for n, h in enumerate(bases) if n in QUICK_CORR2]
+        pays = derived_payloads(tier)
         for h in bases:
             for i in range(len(h)):
-                for c in CORRUPT:
+                for n, c in enumerate(CORRUPT):
                     if h[i] == c:
                         continue
                     hh = h[:i] + bytes([c]) + h[i + 1:]
-                    for pay in derived_payloads(tier):
+                    # quick: one payload per corrupted header, alternating; thorough: every payload
+                    for pay in ([pays[(i + n) % len(pays)]] if tier == 'quick' else pays):
                         for mx in mixins:
                             yield mx, hh + pay, '', True
     elif family in ('trunc1', 'trunc2'):
         bases, mixins = (v1_bases(), ('v1', 'auto')) if family == 'trunc1' else (v2_bases(), ('v2', 'auto'))
         seen = set()
+        full = set(corr2_bases())
         for tag, h in bases:
+            if tier == 'quick' and len(h) > 100 and h not in full:
+                continue                  # quick: UNIX headers are truncated for the corruption bases only
             for n in range(0, len(h)):
                 p = h[:n]
                 if p in seen:
@@ -598,12 +724,15 @@ def gen(family, tier):
             for tup in itertools.product(GARBAGE, repeat=n):
                 g = b''.join(tup)
                 for t in tails:
+                    if tier == 'quick' and n == 4 and len(t) == 130:
+                        continue
                     for mx in ('v1', 'v2', 'auto'):
                         yield mx, g + t, '', True
     elif family == 'bytes2':
-        for fam, lm in ((1, 'exact'), (2, 'exact'), (3, 'exact'), (0, 'exact'), (1, ('tlv', 3)), (0, ('junk', 12))):
+        for fam, lm in (((1, 'exact'), (2, 'exact'), (3, 'exact'), (0, 'exact')) if tier == 'quick' else
+                        ((1, 'exact'), (2, 'exact'), (3, 'exact'), (0, 'exact'), (1, ('tlv', 3)), (0, ('junk', 12)))):
             h = v2_header(1, fam, 1 if fam else 0, lm)
-            for i in (12, 13, 14, 15):
+            for i in ((12, 13, 14, 15) if (tier != 'quick' or (fam, lm) == (1, 'exact')) else (12, 13)):
                 for c in range(256):
                     if h[i] == c:
                         continue
@@ -615,9 +744,9 @@ def gen(family, tier):
             for n in len_values(tier):
                 h = ref.build_v2(cmd, fam, 1 if fam else 0, len_block(fam, n))
                 mx = 'v2' if (n + fam) % 2 == 0 else 'auto'
-                yield mx, h + PAY_EHLO, 'len', True
+                yield mx, h + PAY_EHLO, 'len', ('len2', mx, cmd, fam, n, 'complete')
                 if n > 0:
-                    yield mx, h[:-1], 'len', True
+                    yield mx, h[:-1], 'len', ('len2', mx, cmd, fam, n, 'cut')
     elif family in ('double1', 'double2'):
         if family == 'double1':
             bases, mixins, region = [corr1_bases()[2], corr1_bases()[7]], ('v1', 'auto'), 8
@@ -653,12 +782,14 @@ def mode_for(mixin, stream, hint, tier):
         return (ALL, NOLIMIT, False)
     if hint == 'base' and not quick:
         return (ALL, NOLIMIT, False)
+    if quick and hint != 'base':
+        return (1, 16, True)
     return (2 if quick else 3, 16, True)
 
 
-FAMILIES_QUICK = [('base1', 12), ('base2', 24), ('cross', 2), ('corrupt1', 24), ('corrupt2', 40), ('trunc1', 6),
+FAMILIES_QUICK = [('base1', 12), ('near1', 2), ('base2', 24), ('cross', 2), ('corrupt1', 24), ('corrupt2', 40), ('trunc1', 6),
                   ('trunc2', 6), ('garbage', 8), ('bytes2', 8), ('len2', 6)]
-FAMILIES_THOROUGH = [('base1', 16), ('base2', 64), ('cross', 2), ('corrupt1', 48), ('corrupt2', 128), ('trunc1', 8),
+FAMILIES_THOROUGH = [('base1', 16), ('near1', 2), ('base2', 64), ('cross', 2), ('corrupt1', 48), ('corrupt2', 128), ('trunc1', 8),
                      ('trunc2', 8), ('garbage', 8), ('bytes2', 16), ('len2', 64), ('double1', 8), ('double2', 24)]
 
 
